@@ -699,7 +699,10 @@ impl Property for C14 {
             let n = (1usize << 20) + 1 + rng.below(64);
             let mut set = std::collections::BTreeSet::new();
             while set.len() < mesh.v.len() {
-                let id = match rng.below(3) {
+                // (the three groups below hold fewer than 200 distinct slots between them: anywhere
+                // once most of them are taken)
+                let id = match if set.len() >= 120 { 3 } else { rng.below(3) } {
+                    3 => rng.below(n),
                     0 => rng.below(64),
                     1 => n - 1 - rng.below(64),
                     _ => {
